@@ -205,7 +205,7 @@ def check_xml(ctx, model, style, loaded, obj, cfg, seed, exhaustive_positions=Tr
         for i, (ans, al, v) in enumerate(list(e.attrs)):
             at = e.info.get("attr_types", {}).get((ans, al))
             if at and corruptible(model, at) and e.info.get("cls"):
-                bad = rng.choice(["zz-bad", "12x"])
+                bad = rng.choice(["zz-bad", "12x"] + ([""] if not e.info.get("attr_tokens", {}).get((ans, al)) and "bytes" not in [n for _, n in at] else []))
                 e.attrs[i] = (ans, al, bad)
                 try:
                     data = emit(root, rng)
@@ -339,15 +339,24 @@ def check_dict(ctx, model, style, loaded, obj, seed):
         return
     # every dict node that is a model instance (not generic): inject an unknown key
     nodes = []
+    leaves = []  # (dict node, key, field): primitive single values of clearly typed fields
+    subclassed = {c.base for c in model.classes if c.base}
 
-    def walk(d, o):
+    def located_by_keys(f):
+        """The decoder has to pick the class of the nested object from its keys (compound field, union of
+        classes, declared class with subclasses): documented not to work with unknown properties
+        (json_parsing.md, class locator warning) - nothing is injected into that object itself, but its
+        own nested objects are ordinary again."""
+        classes = [t.name for t in f.types if t.kind == "class"]
+        return f.xml == "Elements" or len(classes) > 1 or any(n in subclassed for n in classes)
+
+    def walk(d, o, located=False):
         if isinstance(d, dict) and type(o).__name__ not in ("AnyElement", "DerivedElement", "dict") and hasattr(o, "__dataclass_fields__"):
-            nodes.append(d)
+            if not located:
+                nodes.append(d)
             c = model.cls(type(o).__name__)
             for _, f in ir.chain_fields(model, c):
                 if f.xml == "Elements":
-                    # objects under a compound field are located by their keys: documented not to
-                    # work with unknown properties (json_parsing.md, class locator warning)
                     continue
                 key = f.wrapper or (f.meta_name if f.meta_name is not None else ir.namegen(c.name_gen if c.has_meta else None, f.name))
                 v = getattr(o, f.name)
@@ -356,9 +365,11 @@ def check_dict(ctx, model, style, loaded, obj, seed):
                     dv = next(iter(dv.values()), None)
                 if isinstance(v, (list, tuple)) and isinstance(dv, (list, tuple)):
                     for x, y in zip(dv, v):
-                        walk(x, y)
+                        walk(x, y, located_by_keys(f))
                 else:
-                    walk(dv, v)
+                    if not located and not f.wrapper and not f.tokens and key in d and isinstance(dv, (int, float, str, bool)) and f.xml in ("Element", "Attribute") and corruptible(model, [(t.kind, t.name) for t in f.types]):
+                        leaves.append((d, key, f))
+                    walk(dv, v, located_by_keys(f))
 
     walk(enc, obj)
     for node in nodes:
@@ -385,6 +396,39 @@ def check_dict(ctx, model, style, loaded, obj, seed):
                             ctx.violation(f"unknown-key/rejected-although-lenient/{bc.short_exc(val)}", f"{val}\n{w['faulted'][:800]}", w)
                         elif deep_eq(clean, val):
                             ctx.violation("unknown-key/changes-the-object", f"{deep_eq(clean, val)}\n{w['faulted'][:800]}", w)
+
+
+    # ---- unconvertible values in the dictionary
+    for node, key, f in leaves[:6]:
+        old = node[key]
+        bad = rng.choice(["zz-bad", "12x"] + ([""] if all(t.name != "bytes" for t in f.types) else []))  # '' is a valid (empty) binary value
+        node[key] = bad
+        try:
+            data = copy.deepcopy(enc)
+        finally:
+            node[key] = old
+        ctx.feature("fault:bad-value/dict")
+        w = dict(w0)
+        w["faulted"] = json.dumps(data)[:4000]
+        w["fault"] = f"bad-value:{bad!r} at {key}"
+        for via_json in (False, True):
+            for opts in OPTS:
+                ctx.case(w["faulted"], opts, via_json, "bad-value")
+                (st, val), nconv = decode(data, opts, via_json)
+                tag = f"props={opts[0]},attrs={opts[1]},conv={opts[2]},json={via_json}"
+                if st == "other":
+                    ctx.violation(f"bad-value-dict/wrong-exception/{bc.short_exc(val)}", f"{type(val).__name__}: {val}\n{tag}\n{w['faulted'][:800]}", w)
+                elif opts[2]:
+                    if st != "ParserError":
+                        ctx.violation("bad-value-dict/not-rejected", f"fail_on_converter_warnings=True but decode succeeded\n{tag}\n{w['faulted'][:800]}", w)
+                elif st == "ParserError":
+                    ctx.violation(f"bad-value-dict/rejected-although-lenient/{bc.short_exc(val)}", f"{val}\n{tag}\n{w['faulted'][:800]}", w)
+                else:
+                    if nconv < 1:
+                        ctx.violation("bad-value-dict/no-converter-warning", f"{tag}\n{w['faulted'][:800]}", w)
+                    diffs = deep_diffs(clean, val)
+                    if len(diffs) != 1 or not kept_as_given(diffs[0][2], bad):
+                        ctx.violation("bad-value-dict/not-kept-as-given", f"diffs={[(p, repr(a)[:60], repr(b)[:60]) for p, a, b in diffs[:4]]}\n{tag}\n{w['faulted'][:800]}", w)
 
 
 def replay(witness, ctx):
@@ -417,7 +461,7 @@ def run_shard(ctx):
                 check_xml(ctx, case.model, case.style, case.loaded, obj, cfg, rng.getrandbits(40))
             if k % 3 == 0:
                 try:
-                    jcase = bc.make_case(ctx, features=ir.Gen.ALL - {"inheritance", "multi_class_choice", "object"}, max_classes=3, max_fields=4, n_objs=1, max_depth=2, json_mode=True)
+                    jcase = bc.make_case(ctx, features=ir.Gen.ALL - ({"object"} if k % 2 else {"inheritance", "multi_class_choice", "object"}), max_classes=4, max_fields=4, n_objs=1, max_depth=3, json_mode=True)
                 except Exception:  # noqa: BLE001
                     continue
                 try:
